@@ -2,6 +2,7 @@
 
 import copy
 import pathlib
+from concurrent.futures import ThreadPoolExecutor
 import random
 
 from harness.core import MachineryError
@@ -21,10 +22,13 @@ META = {
 
 def run(chk):
     dump = chk.scratch / "legacy-states"
-    r = chk.tlc("LegacyMC", "LegacyMC.cfg", extra=("-dump", str(dump)), label="relation vs predicates, key groups exhaustive")
+    with ThreadPoolExecutor(2) as pool:   # two independent TLC runs
+        f1 = pool.submit(chk.tlc, "LegacyMC", "LegacyMC.cfg", extra=("-dump", str(dump)), label="relation vs predicates, key groups exhaustive")
+        f2 = pool.submit(chk.tlc, "LegacyMC", "LegacyMC_PtoShift.cfg", expect_violation="InvTheory", label="vacuity guard / PTO transcribed without the shift")
+        r = f1.result()
+        f2.result()
     if r.violated or not r.completed:
         raise MachineryError(f"Legacy.tla violates {r.violated}: {r.counterexample()[:2000]}")
-    chk.tlc("LegacyMC", "LegacyMC_PtoShift.cfg", expect_violation="InvTheory", label="vacuity guard / PTO transcribed without the shift")
     states = dc.parse_dump(pathlib.Path(str(dump) + ".dump").read_text())
     if len(states) != r.distinct:
         raise MachineryError(f"dump has {len(states)} states, TLC reports {r.distinct}")
